@@ -64,6 +64,60 @@ int main(int argc, char **argv) {
       else if (c != ref) o.fail("C01 decoded point multiset differs across methods (same quantization): method=" + S(method) + " speed=" + S(speed) + " pc#" + S(i) + " seed=" + argv[2]);
     }
   }
+  // per-attribute settings through ExpertEncoder on "odd" meshes (attribute ids, not types, select quantization / prediction; duplicate
+  // attribute types, POSITION anywhere, unusual component counts, normalized flags, metadata): the same per-attribute settings through every
+  // method must decode to the same geometry as the sequential reference; metadata must survive
+  int nodd = thorough ? 8000 : 600;
+  for (int i = 0; i < nodd; i++) {
+    GenInfo gi; std::vector<OddAtt> atts; auto m = gen_odd_mesh(r, gi, atts); if (!m) continue; geos++;
+    std::vector<int> qb(atts.size(), 0), pr(atts.size(), -1);
+    for (size_t a = 0; a < atts.size(); a++) { if (atts[a].is_float && (atts[a].type == GeometryAttribute::POSITION || r.chance(70))) qb[a] = (int)r.range(5, 14);
+      if (r.chance(30)) { static const int ps[] = {PREDICTION_DIFFERENCE, MESH_PREDICTION_PARALLELOGRAM, MESH_PREDICTION_CONSTRAINED_MULTI_PARALLELOGRAM, MESH_PREDICTION_TEX_COORDS_PORTABLE, MESH_PREDICTION_GEOMETRIC_NORMAL}; pr[a] = ps[r.below(5)]; } }
+    auto encode = [&](int method, int speed, int sub, bool builtin, EncoderBuffer &b) -> bool { ExpertEncoder e(*m); e.SetEncodingMethod(method); e.SetSpeedOptions(speed, speed); if (method == MESH_EDGEBREAKER_ENCODING) e.SetEncodingSubmethod(sub);
+      e.SetUseBuiltInAttributeCompression(builtin);
+      for (size_t a = 0; a < atts.size(); a++) { if (qb[a]) e.SetAttributeQuantization(atts[a].att_id, qb[a]); if (pr[a] != -1) (void)e.SetAttributePredictionScheme(atts[a].att_id, pr[a]); }
+      encodes++; return e.EncodeToBuffer(&b).ok(); };
+    std::vector<uint32_t> unq; for (size_t a = 0; a < atts.size(); a++) if (!qb[a]) unq.push_back(m->attribute(atts[a].att_id)->unique_id());
+    EncoderBuffer b0; if (!encode(MESH_SEQUENTIAL_ENCODING, 5, 0, true, b0)) { enc_failed++; continue; }
+    DecoderBuffer d0; d0.Init(b0.data(), b0.size()); Decoder dec0; auto r0 = dec0.DecodeMeshFromBuffer(&d0);
+    if (!r0.ok()) { o.fail("C01 sequential (ExpertEncoder) encode ok but decode failed: odd#" + S(i) + " seed=" + argv[2]); continue; }
+    if (canon_mesh(*r0.value(), unq, false) != canon_mesh(*m, unq, false)) o.fail("C01 sequential (ExpertEncoder) round trip changed unquantized values or faces: odd#" + S(i) + " seed=" + argv[2]);
+    auto meta_sig = [&](const Mesh &x) { std::string t = x.GetMetadata() ? "G" + S((int64_t)x.GetMetadata()->entries().size()) : std::string("-");
+      for (uint32_t uid : gi.uids) { const PointAttribute *pa = x.GetAttributeByUniqueId(uid); int idx = -1; for (int k = 0; k < x.num_attributes(); k++) if (x.attribute(k) == pa) idx = k; const AttributeMetadata *am = idx >= 0 ? x.GetAttributeMetadataByAttributeId(idx) : nullptr; std::string nm; int32_t kv = -99; if (am) { am->GetEntryString("name", &nm); am->GetEntryInt("k", &kv); } t += "|" + nm + ":" + S(kv); } return t; };
+    const std::string msig = meta_sig(*m);
+    if (meta_sig(*r0.value()) != msig) o.fail("C01/C11 metadata changed by the sequential round trip: odd#" + S(i) + " seed=" + argv[2]);
+    const auto Rfull = canon_mesh(*r0.value(), gi.uids, false), Rdrop = canon_mesh(*r0.value(), gi.uids, true);
+    for (int k = 0; k < (thorough ? 6 : 4); k++) {
+      int method = r.chance(80) ? MESH_EDGEBREAKER_ENCODING : MESH_SEQUENTIAL_ENCODING, speed = (int)r.below(11), sub = r.chance(50) ? MESH_EDGEBREAKER_VALENCE_ENCODING : MESH_EDGEBREAKER_STANDARD_ENCODING; bool builtin = !r.chance(15);
+      EncoderBuffer b; if (!encode(method, speed, sub, builtin, b)) { enc_failed++; continue; }
+      paths[std::string("odd-") + (method == MESH_EDGEBREAKER_ENCODING ? "eb" : "seq")]++;
+      const std::string tag = "odd#" + S(i) + " method=" + S(method) + " speed=" + S(speed) + " sub=" + S(sub) + " builtin=" + S(builtin) + " seed=" + argv[2];
+      DecoderBuffer d; d.Init(b.data(), b.size()); Decoder dec; auto res = dec.DecodeMeshFromBuffer(&d);
+      if (!res.ok()) { o.fail(std::string("C01 encode ok but decode failed (") + res.status().error_msg() + "): " + tag); continue; }
+      const bool eb = method == MESH_EDGEBREAKER_ENCODING;
+      if (canon_mesh(*res.value(), gi.uids, eb) != (eb ? Rdrop : Rfull)) o.fail("C01 decoded geometry differs from the sequential reference (same per-attribute settings): " + tag);
+      if (meta_sig(*res.value()) != msig) o.fail("C01/C11 metadata changed by the round trip: " + tag);
+    }
+  }
+  // the same for point clouds: sequential vs kd-tree through ExpertEncoder with per-attribute quantization
+  for (int i = 0; i < (thorough ? 6000 : 500); i++) {
+    GenInfo gi; std::vector<OddAtt> atts; auto m = gen_odd_mesh(r, gi, atts, false); if (!m) continue; geos++;
+    // quantized NORMAL attributes are octahedral in the sequential coder and plain-quantized in the kd-tree coder: not comparable across methods
+    { std::vector<uint32_t> keep; for (size_t a = 0; a < atts.size(); a++) if (atts[a].type != GeometryAttribute::NORMAL) keep.push_back(m->attribute(atts[a].att_id)->unique_id()); gi.uids = keep; }
+    std::vector<int> qb(atts.size(), 0); for (size_t a = 0; a < atts.size(); a++) if (atts[a].is_float) qb[a] = (int)r.range(4, 15);
+    std::vector<uint32_t> unq; for (size_t a = 0; a < atts.size(); a++) if (!qb[a]) unq.push_back(m->attribute(atts[a].att_id)->unique_id());
+    std::vector<Bytes> ref; bool have = false;
+    for (int k = 0; k < 4; k++) { int method = k == 0 ? POINT_CLOUD_SEQUENTIAL_ENCODING : (r.chance(75) ? POINT_CLOUD_KD_TREE_ENCODING : POINT_CLOUD_SEQUENTIAL_ENCODING), speed = (int)r.below(11);
+      ExpertEncoder e(static_cast<const PointCloud &>(*m)); e.SetEncodingMethod(method); e.SetSpeedOptions(speed, speed); for (size_t a = 0; a < atts.size(); a++) if (qb[a]) e.SetAttributeQuantization(atts[a].att_id, qb[a]);
+      EncoderBuffer b; encodes++; if (!e.EncodeToBuffer(&b).ok()) { enc_failed++; continue; }
+      paths[method == POINT_CLOUD_KD_TREE_ENCODING ? "odd-pckd" : "odd-pcseq"]++;
+      const std::string tag = "oddpc#" + S(i) + " method=" + S(method) + " speed=" + S(speed) + " seed=" + argv[2];
+      DecoderBuffer d; d.Init(b.data(), b.size()); Decoder dec; auto res = dec.DecodePointCloudFromBuffer(&d);
+      if (!res.ok()) { o.fail(std::string("C01 point cloud encode ok but decode failed (") + res.status().error_msg() + "): " + tag); continue; }
+      if (canon_pc(*res.value(), unq) != canon_pc(*m, unq)) o.fail("C01 point cloud unquantized values changed: " + tag);
+      auto c = canon_pc(*res.value(), gi.uids); if (!have) { ref = c; have = true; } else if (c != ref) o.fail("C01 decoded point multiset differs across methods (same per-attribute quantization): " + tag);
+    }
+  }
   // many attributes: the Edgebreaker stream addresses attribute data with a signed 8-bit id and counts them in a uint8
   // (fix 29338a7: the encoder refuses more than 128 non-position attributes; before, 130..255 encoded but did not decode)
   for (int na : {2, 127, 128, 129, 130, 200}) {
